@@ -153,24 +153,105 @@ def _load():
     return _PROG, _MODELS
 
 
-def explore_shape(job):
-    scenario, shape, limits = job
+def explore_chunk(task):
+    """explore up to `max_paths` paths / `max_seconds` of the subtrees rooted at the given prefixes;
+    returns a partial result and the unexplored prefixes"""
+    jid, scenario, shape, prefixes, max_paths, max_seconds = task
     prog, models = _load()
     from mirsym.explore import explore
     try:
-        r = explore(prog, 'harness::' + scenario_path(scenario), shape, max_paths=limits.get('max_paths', 200000),
-                    max_seconds=limits.get('max_seconds', 600), models=models)
+        r = explore(prog, 'harness::' + scenario_path(scenario), shape, max_paths=max_paths, max_seconds=max_seconds, models=models,
+                    initial_work=prefixes, return_rest=True)
     except Exception as e:  # a bug in the machinery: inconclusive, never a verdict
         import traceback
-        return {'scenario': scenario, 'shape': shape, 'unsupported': ['internal error: %s\n%s' % (e, traceback.format_exc()[-1500:])],
+        return {'jid': jid, 'unsupported': ['internal error: %s\n%s' % (e, traceback.format_exc()[-1500:])], 'rest': [],
                 'paths': 0, 'completed': 0, 'infeasible': 0, 'nontrivial': 0, 'steps': 0, 'queries': 0, 'solver_s': 0, 'wall': 0,
-                'cex': [], 'panics': [], 'covers': [], 'checks': {}, 'samples': [], 'budget_exhausted': False, 'called': [],
-                'max_depth': 0, 'max_query_s': 0, 'smt': []}
-    return {'scenario': scenario, 'shape': shape, 'paths': r.paths, 'completed': r.completed, 'infeasible': r.infeasible,
+                'cex': [], 'panics': [], 'covers': [], 'checks': {}, 'samples': [], 'called': [],
+                'max_depth': 0, 'max_query_s': 0, 'smt': [], 'fork_sites': {}}
+    return {'jid': jid, 'paths': r.paths, 'completed': r.completed, 'infeasible': r.infeasible,
             'nontrivial': r.nontrivial, 'steps': r.steps, 'queries': r.stats.queries, 'solver_s': r.stats.solver_s,
-            'max_query_s': r.stats.max_query_s, 'wall': r.wall, 'cex': r.cex, 'panics': r.panics, 'unsupported': r.unsupported,
-            'covers': sorted(r.covers), 'checks': r.checks, 'samples': r.samples, 'budget_exhausted': r.budget_exhausted,
-            'called': sorted(r.called), 'max_depth': r.max_depth, 'smt': r.stats.smt_samples[:2]}
+            'max_query_s': r.stats.max_query_s, 'wall': r.wall, 'cex': r.cex[:20], 'panics': r.panics[:20], 'unsupported': r.unsupported,
+            'covers': sorted(r.covers), 'checks': r.checks, 'samples': r.samples[:1],
+            'called': sorted(r.called), 'max_depth': r.max_depth, 'smt': r.stats.smt_samples[:1], 'rest': r.rest,
+            'fork_sites': r.fork_sites}
+
+
+def explore_all(pool, jobs, deadline, nproc):
+    """jobs: [(scenario, shape, limits)] -> merged result per job; work is split by decision prefixes so that
+    all cores stay busy even on one big shape"""
+    res = []
+    for sc, shp, lim in jobs:
+        res.append({'scenario': sc, 'shape': shp, 'paths': 0, 'completed': 0, 'infeasible': 0, 'nontrivial': 0, 'steps': 0, 'queries': 0,
+                    'solver_s': 0.0, 'max_query_s': 0.0, 'wall': 0.0, 'cex': [], 'panics': [], 'unsupported': [], 'covers': set(),
+                    'checks': {}, 'samples': [], 'budget_exhausted': False, 'called': set(), 'max_depth': 0, 'smt': [], 'fork_sites': {}})
+    pending = {}
+    queue = [(jid, [[]]) for jid in range(len(jobs))]
+    dead = set()
+
+    def submit():
+        while queue and len(pending) < nproc * 2:
+            jid, prefixes = queue.pop(0)
+            if jid in dead:
+                continue
+            sc, shp, lim = jobs[jid]
+            # small first chunk so that the tree fans out quickly, larger ones afterwards
+            first = res[jid]['paths'] == 0 and prefixes == [[]]
+            task = (jid, sc, shp, prefixes, 6 if first else 60, 5 if first else 20)
+            pending[pool.apply_async(explore_chunk, (task,))] = jid
+
+    submit()
+    while pending:
+        done = [f for f in pending if f.ready()]
+        if not done:
+            time.sleep(0.02)
+            if time.time() > deadline:
+                for jid in set(pending.values()) | {j for j, _ in queue}:
+                    res[jid]['budget_exhausted'] = True
+                break
+            continue
+        for f in done:
+            jid = pending.pop(f)
+            r = f.get()
+            R = res[jid]
+            for k in ('paths', 'completed', 'infeasible', 'nontrivial', 'steps', 'queries', 'solver_s', 'wall'):
+                R[k] += r[k]
+            R['max_query_s'] = max(R['max_query_s'], r['max_query_s'])
+            R['max_depth'] = max(R['max_depth'], r['max_depth'])
+            R['cex'].extend(r['cex'])
+            R['panics'].extend(r['panics'])
+            R['unsupported'].extend(r['unsupported'])
+            R['covers'].update(r['covers'])
+            R['called'].update(r['called'])
+            for t, n in r['checks'].items():
+                R['checks'][t] = R['checks'].get(t, 0) + n
+            for t, n in r['fork_sites'].items():
+                R['fork_sites'][t] = R['fork_sites'].get(t, 0) + n
+            if len(R['samples']) < 2:
+                R['samples'].extend(r['samples'])
+            if len(R['smt']) < 2:
+                R['smt'].extend(r['smt'])
+            if r['unsupported']:
+                dead.add(jid)
+                continue
+            rest = r['rest']
+            lim = jobs[jid][2]
+            if R['paths'] > lim.get('max_paths', 10 ** 9):
+                R['budget_exhausted'] = True
+                dead.add(jid)
+                continue
+            # split the remaining prefixes into chunks
+            if rest:
+                n = max(1, min(len(rest), nproc))
+                size = (len(rest) + n - 1) // n
+                for i in range(0, len(rest), size):
+                    queue.append((jid, rest[i:i + size]))
+        submit()
+    for R in res:
+        R['covers'] = sorted(R['covers'])
+        R['called'] = sorted(R['called'])
+        if len(R['cex']) > 50:
+            R['cex'] = R['cex'][:50]
+    return res
 
 
 def scenario_path(s):
@@ -261,8 +342,9 @@ def run_check(prop, spec, tier, seed):
             jobs.append((sc['name'], list(shp), sc.get('limits', {}).get(tier, sc.get('limits', {}).get('quick', {}))))
     nproc = int(os.environ.get('VERIF_JOBS', '16'))
     ctxm = mp.get_context('fork')
-    with ctxm.Pool(min(nproc, max(1, len(jobs)))) as pool:
-        results = pool.map(explore_shape, jobs, chunksize=1)
+    budget = spec.get('budget_s', {}).get(tier, 600 if tier == 'quick' else 7200)
+    with ctxm.Pool(nproc) as pool:
+        results = explore_all(pool, jobs, time.time() + budget, nproc)
         # differential self-test: native random runs vs concrete interpretation
         st_jobs = []
         st_native = []
